@@ -1,7 +1,11 @@
 """Implementation side of C17 (formulas): push generated cells through mdtraj's public API.
 
-stdin : {"cells": [{"lengths": [[a,b,c]..per frame], "angles": [[alpha,beta,gamma]..], "rotated": [[[..3x3 rows a,b,c..]]..per frame]}],
+stdin : {"cells": [{"lengths": [[a,b,c]..per frame], "angles": [[alpha,beta,gamma]..], "rotated": [[[..3x3 rows a,b,c..]]..per frame],
+                    "via": "direct" | "join" (+ "split": [n1, n2, ..]) | "reassign" | "reverse" | "setattr_angles"}],
          "saveload": bool}
+"via" is the route by which the trajectory that is asked for its vectors gets its per-frame cell: constructor
+arguments, a join of separately built segments (e.g. a cubic run joined to a hexagonal run of the same edge), a
+constant cell later overwritten per frame, a reversed trajectory sliced back with [::-1].
 stdout: last line JSON {"cells": [result..], "saveload": {...}}
 
 Every number in the payload is already a float32 value (the caller rounds), so mdtraj sees exactly the inputs the
@@ -36,13 +40,42 @@ def run_cell(md, c):
     top.add_atom("C", md.element.carbon, top.add_residue("ALA", top.add_chain()))
     out = {}
     # 1. lengths/angles -> vectors, volumes   (Trajectory glue included)
-    t = md.Trajectory(np.zeros((nf, 1, 3), dtype=np.float32), top)
-    t.unitcell_lengths = L
-    t.unitcell_angles = A
+    via = c.get("via", "direct")
+
+    def fresh(n, l=None, a=None):
+        return md.Trajectory(np.zeros((n, 1, 3), dtype=np.float32), top, unitcell_lengths=l, unitcell_angles=a)
+
+    if via == "join":
+        segs, k = [], 0
+        for n in c["split"]:
+            segs.append(fresh(n, L[k:k + n].copy(), A[k:k + n].copy()))
+            k += n
+        t = segs[0]
+        for i, sg in enumerate(segs[1:]):
+            t = (t + sg) if i % 2 == 0 else md.join([t, sg])
+    elif via == "reassign":
+        t = fresh(nf, np.repeat(L[:1], nf, axis=0), np.repeat(A[:1], nf, axis=0))
+        _ = t.unitcell_vectors, t.unitcell_volumes            # anything cached from the constant cell must not survive
+        t.unitcell_angles = A
+        t.unitcell_lengths = L
+    elif via == "reverse":
+        t = fresh(nf, L[::-1].copy(), A[::-1].copy())[::-1]
+    elif via == "setattr_angles":
+        t = fresh(nf, L.copy(), np.repeat(A[:1], nf, axis=0))
+        t.unitcell_angles = A
+    else:
+        t = fresh(nf)
+        t.unitcell_lengths = L
+        t.unitcell_angles = A
     try:
         out["vectors"] = lst(t.unitcell_vectors)
         out["volumes"] = lst(t.unitcell_volumes)
         out["have"] = bool(t._have_unitcell)
+        out["stored_lengths"] = lst(t.unitcell_lengths)
+        out["stored_angles"] = lst(t.unitcell_angles)
+        # the same getters asked frame by frame on one-frame slices
+        out["vectors_by_frame"] = [lst(t[i].unitcell_vectors[0]) for i in range(t.n_frames)]
+        out["volumes_by_frame"] = [float(t[i].unitcell_volumes[0]) for i in range(t.n_frames)]
     except Exception as e:  # noqa: BLE001
         out["vectors"] = err(e)
     # 2. the utils function on float64 scalars of frame 0
